@@ -161,20 +161,26 @@ func genFWPacket() *rapid.Generator[FWPacket] {
 	})
 }
 
+const c12PureRule = "rule lists (0-6 rules, YAML-shaped maps: keys in random case / unknown / non-string, values of every type, " +
+	"literal / regex-grammar / malformed patterns) x 12 packets over a colliding name alphabet; non-trivial = a regex field or a packet for which a later " +
+	"rule with a different action is shadowed by the first match, or a rule set that must be refused; distinct by canonical JSON"
+
 func TestC12Pure(t *testing.T) {
-	st := vx.NewStats("C12", "pure", "rule lists (0-6 rules, YAML-shaped maps: keys in random case / unknown / non-string, values of every type, "+
-		"literal / regex-grammar / malformed patterns) x 12 packets over a colliding name alphabet; non-trivial = a regex field or a packet for which a later "+
-		"rule with a different action is shadowed by the first match, or a rule set that must be refused; distinct by canonical JSON")
+	st := vx.NewStats("C12", "pure", c12PureRule)
 	defer st.Flush()
 	r := &vx.Runner{Name: "C12.pure", InProc: true}
 	rapid.Check(t, func(t *rapid.T) {
-		clean := rapid.IntRange(0, 9).Draw(t, "clean") < 7
-		s := C12Pure{
-			Rules:   rapid.SliceOfN(genFWRule(clean), 0, 6).Draw(t, "rules"),
-			Packets: rapid.SliceOfN(genFWPacket(), 12, 12).Draw(t, "packets"),
-		}
+		s := genC12Pure(t)
 		st.Judge(t, s, r.Run(s))
 	})
+}
+
+func genC12Pure(t *rapid.T) C12Pure {
+	clean := rapid.IntRange(0, 9).Draw(t, "clean") < 7
+	return C12Pure{
+		Rules:   rapid.SliceOfN(genFWRule(clean), 0, 6).Draw(t, "rules"),
+		Packets: rapid.SliceOfN(genFWPacket(), 12, 12).Draw(t, "packets"),
+	}
 }
 
 func TestC12Mesh(t *testing.T) {
